@@ -470,12 +470,16 @@ class Model(object):
                     trow = self.row(t)
                     self.new_obj(t, False, trow.get('_cls') if trow else None)
 
-    def make_loaded(self, h, lazy_too=False):
+    def make_loaded(self, h, lazy_too=False, sub_too=True):
         o = self.mem[h]
         if o['created']:
             return
         for a in self.cols(h[0], o['cls']):
             if a['lazy'] and not lazy_too:
+                continue
+            if a['sub'] and not sub_too:
+                if o['state'][a['name']] == U:
+                    o['state'][a['name']] = Q
                 continue
             o['state'][a['name']] = L
         o['cls_known'] = True
@@ -486,12 +490,30 @@ class Model(object):
         o = self.mem[h]
         return o['cls'] == 'C2' and (o['cls_known'] or o['created'])
 
+    def unknown_stub(self, t):
+        """an object that may have entered the identity map as a stub without the script asking for it: if the script
+        fetches it later, it may or may not get loaded"""
+        if t in self.mem:
+            return
+        trow = self.row(t)
+        o = self.new_obj(t, False, (trow or {}).get('_cls'))
+        for a in self.cols(t[0], o['cls']):
+            if not a['lazy']:
+                o['state'][a['name']] = Q
+
     def blur_seeds(self, e):
-        for h, o in self.mem.items():
-            if h[0] == e:
+        """loading one stub of an entity loads its fellow stubs in the same batch (and creates stubs of what they
+        refer to)"""
+        for h, o in list(self.mem.items()):
+            if h[0] == e and not o['created']:
                 for a in self.cols(e, o['cls']):
                     if not a['lazy'] and o['state'][a['name']] == U:
                         o['state'][a['name']] = Q
+                row = self.row(h)
+                if row is not None:
+                    for a in self.meta[e]:
+                        if a['kind'] == 'ref' and row.get(a['name']) is not None:
+                            self.unknown_stub((a['type'], row[a['name']]))
 
     def enter_phase2(self):
         if self.phase2:
@@ -546,8 +568,17 @@ class Model(object):
                 if self.mem[h]['deleted']:
                     return False
                 self.mem[h]['captured'] = True
+                if h[0] == 'C' and self.diagram['inherit'] and not self.mem[h]['created']:
+                    # E[pk] of a cached stub of an entity with subclasses loads it (and its fellow stubs)
+                    self.only_creates = False
+                    self.blur_seeds('C')
                 return True
             self.only_creates = False
+            if self.phase2:
+                # after modifications the identity map may already hold this object as a stub
+                self.unknown_stub(h)
+                self.mem[h]['captured'] = True
+                return True
             self.new_obj(h, True, self.row(h).get('_cls'))['captured'] = True
             return True
         if k == 'query_all':
@@ -593,9 +624,13 @@ class Model(object):
             if a['kind'] != 'coll' or o['created']:
                 return False
             self.only_creates = False
-            for h2, o2 in self.mem.items():       # n+1 prefetch may load the same collection of other objects
-                if h2[0] == h[0] and o2['state'][a['name']] == U:
-                    o2['state'][a['name']] = Q
+            for h2, o2 in list(self.mem.items()):    # n+1 prefetch may load the same collection of other objects
+                if h2[0] == h[0] and h2 != h and not o2['created'] and not o2['deleted']:
+                    if o2['state'][a['name']] == U:
+                        o2['state'][a['name']] = Q
+                    if self.row(h2) is not None:
+                        for m in self.members_now(h2, a['name']):
+                            self.unknown_stub((a['type'], m))
             o['state'][a['name']] = L
             for m in self.members_now(h, a['name']):
                 t = (a['type'], m)
@@ -608,6 +643,9 @@ class Model(object):
                     else:
                         self.make_loaded(t)
                 self.mem[t]['captured'] = True
+            if a['m2m'] and a['type'] == 'C' and self.diagram['inherit']:
+                # items of an entity with subclasses are loaded to learn their class (and bring stubs of what they refer to)
+                self.blur_seeds('C')
             return True
         if k == 'read':
             h = hk(act[1])
@@ -661,7 +699,8 @@ class Model(object):
             if not self.alive(h) or self.mem[h]['created']:
                 return False
             self.only_creates = False
-            self.make_loaded(h, lazy_too=True)
+            # obj.load() of a stub that still has the root class loads the attributes of that class only
+            self.make_loaded(h, lazy_too=True, sub_too=self.sub_ok(h))
             return True
         if k in ('contains', 'count'):
             h = hk(act[1])
@@ -797,6 +836,8 @@ class Model(object):
                 ra = get_attr(meta, 'C', 'parent')
                 if prow is not None and prow.get('parent') is not None:
                     self.touched.add(('P', prow['parent']))
+                if o2['created']:
+                    o2['state']['parent'] = Q      # a None reference of a new object is dropped when it is inserted
                 if k == 'add':
                     if prow is not None:
                         prow['parent'] = h[1]
@@ -927,7 +968,8 @@ def pony_rejections():
     from pony.orm import core
     return (core.ConstraintError, core.CacheIndexError, core.IntegrityError, core.TransactionIntegrityError,
             core.ObjectNotFound, core.UnrepeatableReadError, core.UnresolvableCyclicDependency,
-            core.OperationWithDeletedObjectError)
+            core.OperationWithDeletedObjectError,
+            NotImplementedError)    # e.g. a modified stub of the root class turns out to be of a subclass when loaded
 
 
 def run_session(env, case, objs):
@@ -1305,6 +1347,10 @@ class Oracle(object):
                     tol.add(h2[1])
         if self.db_pk(h) is Ellipsis:
             return None
+        sym = [h2[1] for h2 in self.m.mem if h2[0] == a['type'] and is_symbolic(h2[1])]
+        if any(self.actual_pk.get((a['type'], x)) is Ellipsis for x in sym):
+            # several objects created without a pk value: which row belongs to which object is not known
+            tol |= set(sym) | set(pk for pk in self.s1[a['type']] if pk not in self.s0[a['type']])
         unsaved = [x for x in tol if is_symbolic(x) and self.canon(a['type'], x) is None]
         if len(unsaved) > 1:
             return None         # several unsaved objects all have the pk None: sizes cannot be compared
@@ -1429,6 +1475,8 @@ class Oracle(object):
         cands = self.scalar_cands(h, a)
         if self.db_pk(h) is Ellipsis:
             return None
+        if a['kind'] in ('ref', 'o2orev') and is_symbolic(v):
+            return None     # one of several objects created without a pk value: its row cannot be told apart
         if not any(type(v) is type(c) and v == c for c in cands):
             return self._fmt(op, out, 'one of %r' % (cands,))
         return None
@@ -1603,7 +1651,8 @@ class Oracle(object):
     def j_oflush(self, op, out):
         h = hk(op[1])
         o = self.m.mem[h]
-        must = o.get('dirty_sure') and self.rb
+        # a new object that was deleted again (directly or in cascade) is 'cancelled': nothing left to save
+        must = o.get('dirty_sure') and self.rb and not o['deleted_ok'] and not (o['created'] and o['deleted'])
         if 'ok' in out:
             if must:
                 return self._fmt(op, out, 'DatabaseSessionIsOver (the object has unsaved changes)')
